@@ -12,7 +12,11 @@ letter of a fault script
     0 1 2 3        (Type 3 only) the tag executes the command, the answer is cut
                    to 0, 1, 10 octets or to 11 octets with a status flag set
 
-An exhausted script means `a`.  A simulator may itself stay silent (returns
+An exhausted script means `a`.  `clf.sense()` consumes one letter of a second
+script (`1` the tag is found again, `0` it is not; exhausted means found); like
+the real ContactlessFrontend the fake one drops its target when sense fails and
+`exchange()` then returns None without sending anything (logged as ("?", "n")).
+A simulator may itself stay silent (returns
 None: sector select part two, commands a product does not know); the frontend
 then raises TimeoutError like a real reader.  Every exchange is logged as
 (token, letter) where the token is a short canonical name of the command
@@ -23,6 +27,14 @@ import struct
 
 import nfc.clf
 import nfc.tag
+
+triple_des_factory = [None]      # the check may install a result-remembering wrapper around pyDes.triple_des
+
+
+def _tdes(key, iv):
+    from pyDes import triple_des, CBC
+    return (triple_des_factory[0] or triple_des)(key, CBC, iv)
+
 
 ERR = {"t": nfc.clf.TimeoutError, "x": nfc.clf.TransmissionError, "p": nfc.clf.ProtocolError,
        "o": nfc.clf.BrokenLinkError, "c": nfc.clf.CommunicationError}
@@ -57,23 +69,40 @@ class Air(object):
         self.sim = sim
         self.clock = Clock()
         self.script = []
+        self.senses = []       # results of the next clf.sense() calls: "1" found, "0" not found
+        self.notarget = False  # the frontend has dropped its target (a sense() failed)
+        self.used = 0          # letters of the fault script consumed (exhausted script included)
+        self.sensed = ""       # results handed out by sense() so far
         self.log = []          # (token, letter) per exchange, "|" between primitive calls, ("!", errno) per TagCommandError
         self.raw = []          # command octets per exchange
         self.limit = 20000
 
-    def arm(self, script):
+    def arm(self, script, senses=""):
         self.script = list(script)
+        self.senses = list(senses)
         self.log = []
         self.raw = []
+        self.used = 0
+        self.sensed = ""
+
+    def rearm(self, script, senses=""):
+        """new fault scripts for the next operation of a session, the logs go on"""
+        self.script = list(script)
+        self.senses = list(senses)
 
     def mark(self):
         self.log.append("|")
 
     def exchange(self, data, timeout):
         data = bytes(data)
+        if self.notarget:
+            # nfc.clf.ContactlessFrontend.exchange: "no target for data exchange", nothing is sent
+            self.log.append(("?", "n"))
+            return None
         token = self.sim.token(data)
         self.raw.append(data)
         att = self.script.pop(0) if self.script else "a"
+        self.used += 1
         if len(self.log) > self.limit:
             raise RuntimeError("retry_sims: command budget exceeded (endless loop?)")
         step = 0.001 if timeout is None else min(0.001, timeout)
@@ -108,7 +137,13 @@ class Air(object):
         raise ERR[att.lower()]
 
     def sense(self, *targets, **kw):
-        return self.sim.target if self.sim.present else None
+        found = (self.senses.pop(0) if self.senses else "1") == "1" and self.sim.present
+        self.sensed += "1" if found else "0"
+        self.notarget = not found
+        if not found:
+            return None
+        t = self.sim.target                    # the real frontend hands out a new RemoteTarget object
+        return nfc.clf.RemoteTarget(t.brty, **{k: v for k, v in t.__dict__.items() if not k.startswith("_")})
 
 
 # ------------------------------------------------------------------ Type 1
@@ -339,6 +374,9 @@ class SimT3(object):
                 self.blocks[b] = bytearray(data[16 * i:16 * i + 16])
             return self.status(8, 0, 0)
         if self.standard:
+            if code == 2:
+                n = cmd[10]
+                return bytes([11 + 2 * n, 3]) + IDM + bytes([n]) + b"\x00\x00" * n
             if code == 4:
                 return bytes([11, 5]) + IDM + b"\x00"
             if code == 0x0C:
@@ -371,15 +409,13 @@ class SimLite(SimT3):
         self.target = nfc.clf.RemoteTarget("212F", sensf_res=bytearray(b"\x01" + IDM + self.pmm + b"\x88\xB4"))
 
     def mac(self, data):
-        from pyDes import triple_des, CBC
-
         def rev8(b):
             return b"".join(bytes(reversed(b[i:i + 8])) for i in range(0, len(b), 8))
         ck, rc = bytes(self.blocks[0x87]), bytes(self.blocks[0x80])
         ck1, ck2 = ck[0:8][::-1], ck[8:16][::-1]
         rc1, rc2 = rc[0:8][::-1], rc[8:16][::-1]
-        sk = triple_des(ck1 + ck2, CBC, b"\0" * 8).encrypt(rc1 + rc2)
-        return triple_des(sk, CBC, rc1).encrypt(rev8(bytes(data)))[-8:][::-1]
+        sk = _tdes(ck1 + ck2, b"\0" * 8).encrypt(rc1 + rc2)
+        return _tdes(sk, rc1).encrypt(rev8(bytes(data)))[-8:][::-1]
 
     def command(self, cmd):
         if cmd[1] == 0 and (cmd[2], cmd[3]) not in ((0xFF, 0xFF), (0x88, 0xB4), (0x12, 0xFC)):
@@ -397,13 +433,70 @@ class SimLite(SimT3):
         return bytes(16) if b == 0x87 else self.blocks[b]
 
 
+class SimLiteS(SimLite):
+    """FeliCa Lite-S: write counter (0x90), MAC_A (0x91, write only together with a data block) and
+    STATE (0x92).  A write with MAC is accepted once: the write counter is part of the MAC and every
+    accepted write increments it, the identical frame is refused when it arrives again."""
+    MAC_ERROR = (0x01, 0xB1)
+
+    def __init__(self, ndef=b"", key=b"\0" * 16):
+        SimLite.__init__(self, ndef, key)
+        self.pmm = bytes([0x00, 0xF1, 0xFF, 0xFF, 0xFF, 0xFF, 0xFF, 0xFF])
+        self.blocks[0x83] = bytearray(IDM + self.pmm)
+        self.blocks[0x88] = bytearray(b"\xFF\xFF\xFF\x01\x07" + bytes(11))
+        self.blocks[0x90] = bytearray(16)
+        self.blocks[0x92] = bytearray(16)
+        self.target = nfc.clf.RemoteTarget("212F", sensf_res=bytearray(b"\x01" + IDM + self.pmm + b"\x88\xB4"))
+
+    def mac_a(self, number, data):
+        def rev8(b):
+            return b"".join(bytes(reversed(b[i:i + 8])) for i in range(0, len(b), 8))
+        ck, rc = bytes(self.blocks[0x87]), bytes(self.blocks[0x80])
+        ck1, ck2 = ck[0:8][::-1], ck[8:16][::-1]
+        rc1, rc2 = rc[0:8][::-1], rc[8:16][::-1]
+        sk = _tdes(ck1 + ck2, b"\0" * 8).encrypt(rc1 + rc2)
+        head = bytes(self.blocks[0x90][0:3]) + bytes([0, number, 0, 0x91, 0])
+        return _tdes(sk[8:16] + sk[0:8], rc1).encrypt(rev8(head + bytes(data)))[-8:][::-1]
+
+    def once(self, cmd):
+        """reason code with which the identical frame is refused when it is executed a second time"""
+        if cmd[1] == 8 and bytes(cmd[2:10]) == IDM:
+            bl, pos = self.blocklist(cmd)
+            if len(bl) == 2 and bl[1] == 0x91:
+                return self.MAC_ERROR[0] << 8 | self.MAC_ERROR[1]
+        return None
+
+    def bump(self):
+        w = min(int.from_bytes(self.blocks[0x90][0:3], "little") + 1, 0xFFFFFF)
+        self.blocks[0x90][0:3] = w.to_bytes(3, "little")
+
+    def command(self, cmd):
+        if cmd[1] == 8 and bytes(cmd[2:10]) == IDM:
+            bl, pos = self.blocklist(cmd)
+            data = bytes(cmd[pos:])
+            if len(bl) == 2 and bl[1] == 0x91 and bl[0] in self.blocks and len(data) == 32:
+                d16, maca = data[0:16], data[16:32]
+                if maca[0:8] != self.mac_a(bl[0], d16) or maca[8:11] != bytes(self.blocks[0x90][0:3]):
+                    return self.status(8, *self.MAC_ERROR)
+                self.applied.append(("w", tuple(bl), d16))
+                self.blocks[bl[0]] = bytearray(d16)
+                self.bump()
+                return self.status(8, 0, 0)
+            rsp = SimLite.command(self, cmd)
+            if rsp is not None and rsp[10] == 0:
+                self.bump()
+            return rsp
+        return SimLite.command(self, cmd)
+
+
 # ------------------------------------------------------------------ Type 4
 class SimT4(object):
     """ISO-DEP card (single blocks and response chaining, no WTX) with the NDEF application"""
     present = True
 
-    def __init__(self, ndef=b"", mle=64, mlc=32, mfs=256, fwi=8):
+    def __init__(self, ndef=b"", mle=64, mlc=32, mfs=256, fwi=8, typeb=False):
         self.cc = struct.pack(">HBHHBB2sHBB", 15, 0x20, mle, mlc, 4, 6, b"\xE1\x04", mfs, 0, 0)
+        self.answer_to = None       # the command APDU whose response is in `last`
         self.file = bytearray(mfs)
         self.file[0:2] = struct.pack(">H", len(ndef))
         self.file[2:2 + len(ndef)] = ndef
@@ -416,12 +509,18 @@ class SimT4(object):
         self.log_apdu = []
         self.target = nfc.clf.RemoteTarget("106A", sens_res=bytearray(b"\x44\x03"), sel_res=bytearray(b"\x20"),
                                            sdd_res=bytearray(b"\x04\x02\x03\x04\x05\x06\x07"))
+        if typeb:
+            # SENSB_RES: 50h, PUPI, application data, protocol info (FSCI 8 / FWI fwi)
+            self.target = nfc.clf.RemoteTarget("106B", sensb_res=bytearray(
+                b"\x50\x01\x02\x03\x04" + bytes(4) + bytes([0x00, 0x81, fwi << 4])))
 
     @staticmethod
     def token(d):
         pcb = d[0]
         if pcb == 0xE0:
             return "rats"
+        if pcb == 0x1D:
+            return "attrib"
         if pcb & 0xC0 == 0:
             a = d[1:]
             if len(a) < 4 or a[0] != 0:
@@ -464,8 +563,9 @@ class SimT4(object):
 
     def command(self, d):
         pcb = d[0]
-        if pcb == 0xE0:
-            return bytes([0x05, 0x78, 0x80, self.fwi << 4, 0x02])
+        if pcb in (0xE0, 0x1D):                 # RATS / ATTRIB: protocol activation, block numbering starts again
+            self.bn, self.last, self.chain, self.sel = 1, None, b"", None
+            return bytes([0x05, 0x78, 0x80, self.fwi << 4, 0x02]) if pcb == 0xE0 else b"\x00"
         if pcb & 0xC0 == 0:
             if pcb & 1 == self.bn:          # not the expected block number: rule 11 does not apply, ignore
                 return None
@@ -476,6 +576,7 @@ class SimT4(object):
                 return self.last
             apdu, self.chain = self.chain, b""
             self.last = bytes([0x02 | self.bn]) + self.apdu(apdu)
+            self.answer_to = bytes(apdu)
             return self.last
         if pcb & 0xF6 == 0xB2:              # R(NAK)
             if pcb & 1 == self.bn and self.last is not None:
@@ -512,16 +613,31 @@ def build(kind):
         m = t2_memory(180, NDEF0, cc2=18)
         m[164:168] = b"\x04\x00\x00\xFF"
         sim = SimT2(m, uid0=4, version=bytes.fromhex("0004040201000F03"), pwd=b"\xFF\xFF\xFF\xFF\0\0")
+    elif kind == "ntag210":
+        m = t2_memory(80, NDEF0, cc2=6)
+        m[64:68] = b"\x04\x00\x00\xFF"
+        sim = SimT2(m, uid0=4, version=bytes.fromhex("0004040101000B03"), pwd=b"\xFF\xFF\xFF\xFF\0\0")
+    elif kind == "ulev1":
+        m = t2_memory(80, NDEF0, cc2=6)
+        m[64:68] = b"\x04\x00\x00\xFF"
+        sim = SimT2(m, uid0=4, version=bytes.fromhex("0004030101000B03"), pwd=b"\xFF\xFF\xFF\xFF\0\0")
+    elif kind == "nt3h":
+        # NTAG I2C 1K: sector 0 with user memory and configuration, session registers in sector 3
+        sim = SimT2(t2_memory(4096, NDEF0, cc2=0x6D), uid0=4, version=bytes.fromhex("0004040502011303"))
     elif kind == "t3":
         sim = SimT3(4, 2, 20, NDEF0 * 5)
     elif kind == "t3std":
         sim = SimT3(4, 2, 20, NDEF0 * 5, ic=0x20, standard=True)
     elif kind == "lite":
         sim = SimLite(NDEF0 * 3)
+    elif kind == "lites":
+        sim = SimLiteS(NDEF0 * 3)
     elif kind == "t4":
         sim = SimT4(NDEF0 * 5)
     elif kind == "t4chain":
         sim = SimT4(NDEF0 * 5, mle=255, mlc=255, mfs=2048)     # UPDATE BINARY of 255 octets = two ISO-DEP blocks
+    elif kind == "t4b":
+        sim = SimT4(NDEF0 * 3, typeb=True)
     elif kind == "t4slow":
         sim = SimT4(NDEF0 * 2, fwi=11)         # frame waiting time 0.62 s: one R(NAK) retry only
     else:
@@ -531,4 +647,5 @@ def build(kind):
     return sim, air, tag
 
 
-KINDS = ["t2", "t2big", "ul", "ulc", "ntag203", "ntag213", "t3", "t3std", "lite", "t1s", "t1d", "topaz", "topaz512", "t4", "t4slow", "t4chain"]
+KINDS = ["t2", "t2big", "ul", "ulc", "ntag203", "ntag213", "ntag210", "ulev1", "nt3h", "t3", "t3std", "lite", "lites",
+         "t1s", "t1d", "topaz", "topaz512", "t4", "t4b", "t4slow", "t4chain"]
